@@ -693,6 +693,26 @@ def run(ctx):
                 res = (f"C03:release:engine-raised:{type(e).__name__}:ghost:flat:reused-layer", f"ghost clipping over a reused LayerNorm raised {type(e).__name__}: {str(e)[:200]}", {"failing_input": dict(cfg)})
             if res:
                 ctx.property_failure(res[0], res[1], res[2])
+        # every run: ghost clipping over LONG sequences (3-D activations [B, T, d] with T just above a power of two up to 2048, and
+        # embeddings over T tokens): the norm samplers contract over the whole sequence; an implementation that works in blocks of
+        # positions must still pair every block with every other one (seeded C03-h: blocks of 512 paired only with themselves)
+        longT = [65, 130, 260, 520, 1030, 2050]
+        for i in range(ctx.n(3, 12)):
+            cfg = next(c for c in (gen_release_cfg(ctx.rng, ctx.thorough) for _ in range(300)) if c["gsm_mode"] == "ghost")
+            T = longT[(ctx.rng.randrange(2) + 2 * i) % len(longT)] if not ctx.thorough else longT[i % len(longT)]
+            arch = ["seq", "lin", "embseq"][i % 3]
+            cfg["spec"] = dict(cfg["spec"], arch=arch, T=T, I=min(cfg["spec"].get("I", 2), 3))
+            if arch == "lin":
+                cfg["spec"]["rank"] = 3
+            else:
+                cfg["spec"].pop("rank", None)
+            ctx.count("search:release:ghost:long-sequence")
+            try:
+                res = release_oracle(cfg)
+            except Exception as e:
+                res = (f"C03:release:engine-raised:{type(e).__name__}:ghost:flat:long-sequence", f"ghost clipping over a sequence of {T} positions raised {type(e).__name__}: {str(e)[:200]}", {"failing_input": dict(cfg)})
+            if res:
+                ctx.property_failure(res[0], res[1], res[2])
         combos = [("hooks", "flat"), ("functorch", "flat"), ("hooks", "per_layer"), ("ghost", "flat"), ("functorch", "per_layer")]
         for i in range(ctx.n(10, 120)):
             cfg = gen_release_cfg(ctx.rng, ctx.thorough)
